@@ -29,7 +29,7 @@ def default_values(case):
 signature_matches = c01.signature_matches
 
 EDITS = ['none', 'replace-initial-condition', 'add-metric', 'add-lmi', 'switch-backend', 'primal-mode', 'trace-heuristic',
-         'failed-middle-solve', 'new-sample', 'inaccurate-second-solve', 'options-middle-solve', 'change-parameter']
+         'failed-middle-solve', 'new-sample', 'inaccurate-second-solve', 'options-middle-solve', 'change-parameter', 'heuristic-then-primal']
 
 
 def apply_edit(env, m, edit, tagname=""):
@@ -86,7 +86,10 @@ def prog(env, case):
     pep = m.pep
     held = c02.held_objects(env, m, after=False)
     # ---- solve 1 ------------------------------------------------------------------------------------------
-    t1, e1 = pipeline.safe_solve(env, pep, tag + ":solve1", wrapper=b1, verbose=0)
+    kw1 = {}
+    if edit == 'heuristic-then-primal':
+        kw1 = dict(dimension_reduction_heuristic='trace')      # the FIRST solve uses a dimension-reduction heuristic
+    t1, e1 = pipeline.safe_solve(env, pep, tag + ":solve1", wrapper=b1, verbose=0, **kw1)
     options_first = c12.solver_call_options(pep.wrapper, b1) if pep.wrapper is not None else None
     if e1:
         return e1
@@ -112,6 +115,10 @@ def prog(env, case):
             cstub.statuses = ('optimal_inaccurate',)
         else:
             kw.update(eps=1e-12, max_iters=3000)
+    elif edit == 'heuristic-then-primal':
+        # ... then the model is changed and solved plainly in primal mode: nothing of the heuristic run may survive
+        apply_edit(env, m, 'replace-initial-condition')
+        kw['return_primal_or_dual'] = 'primal'
     elif edit == 'options-middle-solve':
         # a solve in between passes solver options (accuracy, iteration limit, solver log): they belong to that call only
         pep.solve(wrapper=b1, verbose=2, **(dict(solver='SCS', eps=1e-3, max_iters=50000) if b1 == 'cvxpy' else {}))
@@ -150,6 +157,9 @@ def prog(env, case):
                  Expression.counter, Point.counter), signature=tag + ":stale:instance-not-refreshed")
     if not sizes_ok:
         return "stale instance"
+    if kw.get('return_primal_or_dual') == 'primal':
+        env.check_eq(t2, pep.F_value[pep.objective.counter], "the value returned in primal mode is not the objective at the "
+                     "instance of this solve (a number of an earlier solve was returned)", signature=tag + ":primal-value")
     for k, e in enumerate(Expression.list_of_leaf_expressions):
         env.check_eq(e._value, pep.F_value[k], "a leaf expression does not carry the value of the latest solve",
                      signature=tag + ":stale:leaf-expression")
@@ -228,7 +238,7 @@ def prog(env, case):
     m_f = pipeline.build(env, spec)
     if edit in ('replace-initial-condition', 'add-metric', 'add-lmi', 'new-sample', 'change-parameter'):
         apply_edit(env, m_f, edit)
-    elif edit == 'inaccurate-second-solve':
+    elif edit in ('inaccurate-second-solve', 'heuristic-then-primal'):
         apply_edit(env, m_f, 'replace-initial-condition')
     tf, ef = pipeline.safe_solve(env, m_f.pep, tag + ":fresh", wrapper=b2, **kw)
     if ef:
@@ -322,6 +332,8 @@ def cases(tier):
                 if edit == 'options-middle-solve' and (be != 'cvxpy' or mname not in ('gd', 'lmi')):
                     continue
                 if edit == 'change-parameter' and mname not in ('gd', 'lmi'):
+                    continue
+                if edit == 'heuristic-then-primal' and mname not in ('gd', 'lmi'):
                     continue
                 cs.append(dict(id="%s-%s-%s" % (mname, edit, be), mname=mname, spec=spec, edit=edit, backend=be,
                                input_zero_tests='generic', output_branches='first'))
